@@ -10,6 +10,7 @@ import (
 	"net"
 	"net/http"
 	"regexp"
+	"runtime"
 	"sort"
 	"strconv"
 	"strings"
@@ -20,6 +21,7 @@ import (
 	"github.com/gorilla/websocket"
 	"go.dedis.ch/onet/v3"
 	"go.dedis.ch/onet/v3/log"
+	"go.dedis.ch/onet/v3/network"
 	"go.dedis.ch/protobuf"
 	"onetverif/harness/fix"
 	"onetverif/harness/h"
@@ -39,6 +41,7 @@ import (
 //        thread's consecutive messages for it are pipelined on one connection)
 //   c14 rest <thr> <client> <METHOD> <json|text|none> <resource> <tail|-> <body>
 //   c14 barrier
+//   c14 procs <n>      GOMAXPROCS of the (sub-)process running the server and the clients
 //   c14 calls
 //
 // body: `-` (no body) | `syntax` | `{}` | items separated by `;`:
@@ -467,6 +470,14 @@ func c14exec(c *h.Ctx, cs *h.Case) {
 		case len(tk) == 2 && tk[0] == "c14" && tk[1] == "barrier":
 			flush()
 			cs.Impl[i] = "ok"
+		case len(tk) == 3 && tk[0] == "c14" && tk[1] == "procs":
+			flush()
+			if n, err := strconv.Atoi(tk[2]); err == nil && n > 0 {
+				runtime.GOMAXPROCS(n)
+				cs.Impl[i] = "ok"
+			} else {
+				cs.Impl[i] = "bad-op"
+			}
 		case len(tk) == 2 && tk[0] == "c14" && tk[1] == "calls":
 			flush()
 			cs.Impl[i] = fmt.Sprint(atomic.LoadInt64(&c14Calls))
@@ -500,11 +511,23 @@ func c14owed(tk []string) (kind, want string, called bool) {
 		return "reply", c14showReply(r), true
 	}
 	if tk[1] == "ws" {
-		tag := map[string]string{"C14Echo": "Echo", "C14Swap": "Swap"}[tk[4]]
+		tag := map[string]string{"C14Echo": "Echo", "C14Swap": "Swap", "C14Key": "Key"}[tk[4]]
 		if tag == "" {
 			return "error", "", false
 		}
 		buf, _ := c14hex(tk[5])
+		if tag == "Key" {
+			var m C14Key
+			if err := protobuf.DecodeWithConstructors(buf, &m, network.DefaultConstructors(fix.Suite)); err != nil {
+				return "error", "", false
+			}
+			str := ""
+			if m.P != nil {
+				b, _ := m.P.MarshalBinary()
+				str = string(b)
+			}
+			return reply(tag, m.A, str, nil)
+		}
 		var m C14Echo
 		if err := protobuf.Decode(buf, &m); err != nil {
 			return "error", "", false
@@ -1083,6 +1106,44 @@ func c14genCases(c *h.Ctx, yield func(*h.Case)) {
 		for i := 0; i < nthr*(4+r.Intn(8)); i++ {
 			t := r.Intn(nthr)
 			restop(cs, fmt.Sprintf("t%d", t), fmt.Sprintf("%s%d", []string{"k", "o"}[t%2], t), res)
+		}
+		emit(cs)
+
+		// requests with an optional field of interface type: present, then absent (the decoder
+		// does not reset such a field, so the object it decodes into must be fresh); different
+		// clients and connections; with one P and with all of them
+		cs = &h.Case{Class: "interface-field"}
+		if r.Intn(3) != 0 {
+			cs.Ops = append(cs.Ops, "c14 procs 1")
+		}
+		for i, m := 0, 4+r.Intn(10); i < m; i++ {
+			req := &C14Key{A: g.int(true)}
+			kind := "no-key"
+			if i%2 == 0 || r.Intn(4) == 0 {
+				req.P = fix.Suite.Point().Pick(fix.Suite.XOF([]byte(fmt.Sprint("c14", g.int(false)))))
+				kind = "key"
+			}
+			buf, err := protobuf.Encode(req)
+			if err != nil {
+				panic(err)
+			}
+			c.Count("ws:interface-field:" + kind)
+			cl := []string{"oalice", "obob", "kcarol", "kdave"}[r.Intn(4)]
+			c.Count("client:" + cl[:1])
+			cs.Ops = append(cs.Ops, fmt.Sprintf("c14 ws t1 %s C14Key %s", cl, h.Hex(buf)))
+		}
+		emit(cs)
+
+		// many threads share one single-use client and one path: every Send closes the
+		// connection, the next one dials again; the per-destination lock must survive that
+		cs = &h.Case{Class: "shared-single-use-client"}
+		nthr = 3 + r.Intn(6)
+		for i := 0; i < nthr*(4+r.Intn(6)); i++ {
+			hint := 0
+			if r.Intn(8) == 0 {
+				hint = -1
+			}
+			wsop(cs, fmt.Sprintf("t%d", r.Intn(nthr)), "o0", "C14Echo", hint)
 		}
 		emit(cs)
 
